@@ -57,6 +57,9 @@ int32_t psInitPubKey(psPool_t *pool, psPubKey_t *key, uint8_t type)
         break;
 # endif
     default:
+        /* DH, X25519, ...: no type-specific initializer; psClearPubKey
+           must never see uninitialized pointers */
+        Memset(&key->key, 0x0, sizeof(key->key));
         break;
     }
     key->pool = pool;
